@@ -50,12 +50,13 @@ type c12hpRecvCase struct {
 	Listen      int  `json:"listen"`
 	Filter      int  `json:"filter"`
 	ConnectOK   bool `json:"connect_ok"`
-	OtherDirect bool `json:"other_direct_conn"` // besides the stream's connection a direct connection to the peer exists
+	OtherDirect bool `json:"other_direct_conn"`       // besides the stream's connection a direct connection to the peer exists
+	LimFlags    int  `json:"limited_flags,omitempty"` // c12hpLim*: bit 0 relayed connections are NOT Limited, bit 1 direct connections report Limited
 }
 
 func (c *c12hpRecvCase) describe() string {
-	return fmt.Sprintf("stream on a %s connection; initiator sends %s then %s; listenAddrs=%s filter=%s connect=%v other-direct-conn=%v",
-		c12hpRConnNames[c.Conn], c12hpAnsNames[c.First], c12hpSecondNames[c.Second], c12hpListenNames[c.Listen], c12hpFilterNames[c.Filter], c.ConnectOK, c.OtherDirect)
+	return fmt.Sprintf("stream on a %s connection; Stat().Limited=[%s]; initiator sends %s then %s; listenAddrs=%s filter=%s connect=%v other-direct-conn=%v",
+		c12hpRConnNames[c.Conn], c12hpLimNames[c.LimFlags&3], c12hpAnsNames[c.First], c12hpSecondNames[c.Second], c12hpListenNames[c.Listen], c12hpFilterNames[c.Filter], c.ConnectOK, c.OtherDirect)
 }
 
 func (c *c12hpRecvCase) honest() bool {
@@ -85,6 +86,7 @@ func c12hpRunRecv(t *testing.T, w *c12hpWorld, c *c12hpRecvCase) (o c12hpRecvObs
 	synctest.Test(t, func(*testing.T) {
 		h := c12hpNewHost(w)
 		defer h.ps.Close()
+		h.limFlags = c.LimFlags & 3
 		var conn *c12hpConn
 		switch c.Conn {
 		case c12hpRConnRelayedOut:
@@ -226,6 +228,11 @@ func c12hpRecvClass(c *c12hpRecvCase, o *c12hpRecvObs) (class, sig string) {
 	}
 	class = fmt.Sprintf("%s/%s/connects=%d", reply, end, n)
 	sig = fmt.Sprintf("%s|%s|%s|%s|%d|%s", class, c12hpRConnNames[c.Conn], c12hpAnsNames[c.First], o.ReplyType, len(o.ReplyAddrs), sb.String())
+	// the carrying connection is part of the signature; so is what it reports as Limited when that is not the natural value
+	relayed := c.Conn == c12hpRConnRelayedOut || c.Conn == c12hpRConnRelayedIn
+	if lim := c12hpLimitedFor(c.LimFlags, relayed); lim != relayed {
+		sig += fmt.Sprintf("|carrier-limited=%v", lim)
+	}
 	return class, sig
 }
 
@@ -240,52 +247,62 @@ func c12hpReceiver(t *testing.T) {
 	r.Bounds["addr_filter"] = strings.Join(c12hpFilterNames, " | ")
 	r.Bounds["connect_outcome"] = "fails | succeeds"
 	r.Bounds["other_direct_connection"] = "absent | present"
+	if vrep.Thorough() {
+		r.Bounds["stat_limited"] = strings.Join(c12hpLimNames, " | ") + " (full product)"
+	} else {
+		r.Bounds["stat_limited"] = strings.Join(c12hpLimNames, " | ") + " (natural: full product; the other three: filter=none)"
+	}
 	shard, nshards := vrep.Shard()
 	deadline := vrep.Deadline()
 	distinct := map[string]struct{}{}
 	classes := map[string]bool{}
 	idx := -1
 	problems := 0
-	for conn := 0; conn < c12hpNRConns; conn++ {
-		for first := 0; first < c12hpAnsStreamErr; first++ {
-			for second := 0; second < c12hpNSecond; second++ {
-				for ls := 0; ls < c12hpNListen; ls++ {
-					for f := 0; f < c12hpNFilters; f++ {
-						for _, cok := range []bool{false, true} {
-							for _, od := range []bool{false, true} {
-								idx++
-								// split by (connection, first message), both part of the signature: per-worker distinct counts add up exactly
-								if (conn*c12hpAnsStreamErr+first)%nshards != shard {
-									continue
-								}
-								if r.Executions%512 == 0 && time.Now().After(deadline) {
-									r.Cap("deadline reached at case #%d", idx)
-									r.Distinct = int64(len(distinct))
-									return
-								}
-								c := c12hpRecvCase{Conn: conn, First: first, Second: second, Listen: ls, Filter: f, ConnectOK: cok, OtherDirect: od}
-								o := c12hpRunRecv(t, w, &c)
-								if o.Problem != "" {
-									problems++
-									if problems <= 3 {
-										r.Cap("execution without verdict (%s): %s", o.Problem, c.describe())
+	for lf := 0; lf < c12hpNLimFlags; lf++ {
+		for conn := 0; conn < c12hpNRConns; conn++ {
+			for first := 0; first < c12hpAnsStreamErr; first++ {
+				for second := 0; second < c12hpNSecond; second++ {
+					for ls := 0; ls < c12hpNListen; ls++ {
+						for f := 0; f < c12hpNFilters; f++ {
+							if lf != 0 && f != c12hpFilterNil && !vrep.Thorough() {
+								continue // quick: the other settings of Stat().Limited without address filters (they do not interact)
+							}
+							for _, cok := range []bool{false, true} {
+								for _, od := range []bool{false, true} {
+									idx++
+									// split by (connection, first message), both part of the signature: per-worker distinct counts add up exactly
+									if (conn*c12hpAnsStreamErr+first)%nshards != shard {
+										continue
 									}
-									if problems >= 50 {
+									if r.Executions%512 == 0 && time.Now().After(deadline) {
+										r.Cap("deadline reached at case #%d", idx)
 										r.Distinct = int64(len(distinct))
 										return
 									}
-									continue
-								}
-								r.Executions++
-								class, sig := c12hpRecvClass(&c, &o)
-								r.Outcome(class)
-								distinct[sig] = struct{}{}
-								if !classes[class] {
-									classes[class] = true
-									r.Sample(map[string]any{"case": c.describe(), "class": class, "observed": o})
-								}
-								for _, v := range c12hpCheckRecv(w, &c, &o) {
-									r.Violate(v.key, v.desc+"\n  case: "+c.describe(), map[string]any{"side": "receiver", "case": c, "observed": o})
+									c := c12hpRecvCase{Conn: conn, First: first, Second: second, Listen: ls, Filter: f, ConnectOK: cok, OtherDirect: od, LimFlags: lf}
+									o := c12hpRunRecv(t, w, &c)
+									if o.Problem != "" {
+										problems++
+										if problems <= 3 {
+											r.Cap("execution without verdict (%s): %s", o.Problem, c.describe())
+										}
+										if problems >= 50 {
+											r.Distinct = int64(len(distinct))
+											return
+										}
+										continue
+									}
+									r.Executions++
+									class, sig := c12hpRecvClass(&c, &o)
+									r.Outcome(class)
+									distinct[sig] = struct{}{}
+									if !classes[class] {
+										classes[class] = true
+										r.Sample(map[string]any{"case": c.describe(), "class": class, "observed": o})
+									}
+									for _, v := range c12hpCheckRecv(w, &c, &o) {
+										r.Violate(v.key, v.desc+"\n  case: "+c.describe(), map[string]any{"side": "receiver", "case": c, "observed": o})
+									}
 								}
 							}
 						}
